@@ -42,6 +42,8 @@ const (
 	c35PeerBatch   = "peer_batch"    // POST /1/batch/<ds> on the PEER listener (msgpack, as a peer would)
 	c35Query       = "query"         // GET /query/{trace,rules,allrules,configmetadata}
 	c35Alive       = "alive"         // GET /alive, /ready, /version
+	c35AlivePoll   = "alive_poll"    // tight loop of 20-60 GET /alive (every 8th /ready) on one connection: a liveness prober
+	c35HealthFlap  = "health_flap"   // the flaky extra health subsystem reports Ready once (and then goes silent again)
 	c35ReloadCfg   = "reload_cfg"    // rewrite config file (variant Arg) + Reload()
 	c35ReloadRules = "reload_rules"  // rewrite rules file (variant Arg) + Reload()
 	c35StressFlip  = "stress_flip"   // rewrite StressRelief.Mode (never/always/monitor by Arg) + Reload()
@@ -85,6 +87,12 @@ type c35Scenario struct {
 	// a small DroppedPerWorker the dropped-trace cuckoo filter passes 50% load
 	// (future filter creation) and fills up (filter cycling) within the scenario.
 	DropHeavy bool `json:"drop_heavy,omitempty"`
+	// FlakyHealthMs: if > 0 an extra subsystem is registered with the real
+	// Health object with this timeout; it reports Ready at start and then only
+	// when a health_flap op runs, so it repeatedly misses its timeout and is
+	// found dead by whoever asks first (a /alive probe or another subsystem's
+	// report) while three probers poll /alive tightly.
+	FlakyHealthMs int `json:"flaky_health_ms,omitempty"`
 	// DroppedPerWorker / KeptPerWorker: SampleCache.DroppedSize / KeptSize per
 	// collector worker at start (0 = the large defaults 20000 / 1000 in total);
 	// config reloads switch between 1x and 2x (dropped) / 1x and 3x (kept).
@@ -104,6 +112,10 @@ func genC35Op(t *rapid.T, profile int) c35Op {
 	switch profile {
 	case 4: // producer of distinct short traces
 		kinds = []string{c35BatchFresh}
+	case 5: // liveness prober
+		kinds = []string{c35AlivePoll}
+	case 6: // the flaky subsystem's reporter
+		kinds = []string{c35HealthFlap}
 	case 0:
 		kinds = []string{c35BatchFresh, c35BatchOwn, c35BatchOwn, c35BatchForeig, c35BatchForeig, c35BatchMixed, c35BatchMixed, c35Event, c35OTLP, c35OTLP, c35PeerBatch, c35PeerBatch}
 	case 1:
@@ -170,11 +182,22 @@ func genC35(t *rapid.T) c35Scenario {
 		s.KeptPerWorker = rapid.SampledFrom([]int{2, 8, 64}).Draw(t, "keptpw")
 	}
 	n := rapid.IntRange(6, 10).Draw(t, "nactors")
+	if rapid.IntRange(0, 2).Draw(t, "flakyhealth") == 0 || os.Getenv("VERIF_C35_ONLY_FLAKY") != "" {
+		s.FlakyHealthMs = rapid.SampledFrom([]int{500, 1000}).Draw(t, "flakyms")
+		n = rapid.IntRange(9, 10).Draw(t, "nactorsfh")
+		if s.DurationMs < 2200 {
+			s.DurationMs = 2200
+		}
+	}
 	// the first actors get fixed profiles so that a scenario is non-trivial by
 	// construction most of the time; the rest are drawn
 	for i := 0; i < n; i++ {
 		var profile int
 		switch {
+		case s.FlakyHealthMs > 0 && (i == 3 || i == 7 || i == 8):
+			profile = 5
+		case s.FlakyHealthMs > 0 && i == 6:
+			profile = 6
 		case s.DropHeavy && (i == 0 || i == 1 || i == 4 || i == 5):
 			profile = 4
 		case i == 0 || i == 1:
@@ -192,6 +215,15 @@ func genC35(t *rapid.T) c35Scenario {
 			maxOps = 4 // a Reload costs 0.1-2 s under the race detector
 		}
 		ops := rapid.SliceOfN(rapid.Custom(func(t *rapid.T) c35Op { return genC35Op(t, p) }), 1, maxOps).Draw(t, "ops")
+		for k := range ops {
+			switch ops[k].Kind {
+			case c35AlivePoll:
+				ops[k].ThinkUs = 0
+			case c35HealthFlap:
+				// stay silent for the timeout plus 1-3 health ticks
+				ops[k].ThinkUs = (s.FlakyHealthMs + 600 + 250*(ops[k].Arg%4)) * 1000
+			}
+		}
 		if s.DropHeavy {
 			for k := range ops {
 				isReload := ops[k].Kind == c35ReloadCfg || ops[k].Kind == c35ReloadRules || ops[k].Kind == c35StressFlip
@@ -360,6 +392,8 @@ type c35ChildSummary struct {
 	MaxCurrentLoad float64 `json:"max_cuckoo_current_load"`
 	MaxFutureLoad  float64 `json:"max_cuckoo_future_load"`
 	KeptEvictable  bool    `json:"kept_evictable"`
+	// per liveness prober: how often it saw /alive turn from 200 to 503
+	DeathsSeen []int `json:"deaths_seen,omitempty"`
 }
 
 type c35RunResult struct {
@@ -550,6 +584,20 @@ func execC35(s c35Scenario) vkit.Result {
 		if s.DropHeavy {
 			res.Class("drop-heavy")
 		}
+		if s.FlakyHealthMs > 0 {
+			res.Class("flaky-health-subsystem")
+			seenBy := 0
+			for _, d := range rr.summary.DeathsSeen {
+				if d > 0 {
+					seenBy++
+				}
+			}
+			if seenBy >= 2 {
+				res.Class("health-subsystem-died-under->=2-concurrent-probers")
+			} else if seenBy == 1 {
+				res.Class("health-subsystem-died-under-1-prober")
+			}
+		}
 		if s.DroppedPerWorker > 0 {
 			res.Class("small-sample-caches")
 		}
@@ -577,7 +625,7 @@ func execC35(s c35Scenario) vkit.Result {
 func TestC35(t *testing.T) {
 	vkit.Run(t, vkit.Spec[c35Scenario]{
 		ID:   "C35",
-		Rule: "rapid-generated scenarios: 6-10 concurrently looping actor scripts over {batch/event/OTLP ingest for own and foreign traces, bursts of distinct one-span traces, peer-listener ingest, /query/*, /alive,/ready, config+rules file rewrite + Reload, stress mode flip via reload, membership churn via MockPeers.UpdatePeers, metrics reads + Prometheus scrape, VerifEject, Stop} against the full injected app (real fileConfig, routers, collector, StressRelief, DirectTransmissions, ConfigWatcher, LocalPubSub, MultiMetrics+Prometheus) in a -race child process; half of the scenarios start drop-heavy with tiny SampleCache.DroppedSize/KeptSize so that the cuckoo filter maintenance (future filter at 50% load, cycling, SetNextCapacity/Resize) runs under traffic; every race report is normalised to its pair of top refinery frames. Non-trivial: the child finished, >=1 ingest request was accepted and >=2 of {reload, stress flip, churn, eject, stop} were executed. Distinct = distinct scenario JSON.",
+		Rule: "rapid-generated scenarios: 6-10 concurrently looping actor scripts over {batch/event/OTLP ingest for own and foreign traces, bursts of distinct one-span traces, peer-listener ingest, /query/*, /alive,/ready, config+rules file rewrite + Reload, stress mode flip via reload, membership churn via MockPeers.UpdatePeers, metrics reads + Prometheus scrape, VerifEject, tight /alive probing while a flaky extra health subsystem keeps missing its timeout, Stop} against the full injected app (real fileConfig, routers, collector, StressRelief, DirectTransmissions, ConfigWatcher, LocalPubSub, MultiMetrics+Prometheus) in a -race child process; half of the scenarios start drop-heavy with tiny SampleCache.DroppedSize/KeptSize so that the cuckoo filter maintenance (future filter at 50% load, cycling, SetNextCapacity/Resize) runs under traffic; every race report is normalised to its pair of top refinery frames. Non-trivial: the child finished, >=1 ingest request was accepted and >=2 of {reload, stress flip, churn, eject, stop} were executed. Distinct = distinct scenario JSON.",
 		Assumptions: []string{
 			"the Go race detector only reports races on interleavings that actually occur; a silent scenario proves little (DESIGN section 6)",
 			"peer.MockPeers (refinery's own test double) stands in for the membership source; fake Honeycomb and fake peers are httptest servers in the child",
